@@ -20,7 +20,7 @@ Extraction "extracted.ml"
   Decode.extract_encoding Decode.decode_body
   Pool.run Pool.count_submits
   Dmp.get_visible_text Dmp.compute_dmp_diff Dmp.html_source_diff Dmp.old_side Dmp.new_side
-  Links.links_diff x_links_assemble_diff Links.page_links Links.clean_href x_links_count_changes Links.rebalance
+  Links.links_diff x_links_assemble_diff Links.page_links Links.sort_links Links.clean_href x_links_count_changes Links.rebalance
   Links.same_key Links.rough_eq Links.dlink Difflib.get_opcodes Difflib.insensitive_opcodes
   RenderMerge.htmldiff RenderMerge.prepare x_render_tokenize RenderMerge.token_opcodes RenderMerge.merge_changes RenderTokens.url_eq RenderTokens.rule_compare
   RenderDoc.render_view RenderDoc.selected RenderDoc.kind_name RenderDoc.title_markup
